@@ -14,7 +14,11 @@ import (
 // plainTxnCfg: committed transactions only (C01 is about committed values).
 func c01TxnCfg() TxnCfg {
 	return TxnCfg{Prop: "C01", MaxSteps: 12, Deletes: true, Inserts: true, Merges: true, OwnUpdates: true, Direct: true, Rollback: true, Peeks: true,
-		NoStoreOnDel: KFActive("f11-store-and-delete-same-txn"), NoOpAfterLenMerge: KFActive("f15-difflen-merge-reorder")}
+		// known finding f15 (a re-queued merge result is read AFTER later operations on its row) concerns the
+		// passes that follow the column's own one - indexes, triggers, loggers, replicas. This check has none of
+		// those: the value the collection itself holds must be right also after a length-changing merge that is
+		// followed by further stores (since fix f30 it is), so the region is not excluded here.
+		NoStoreOnDel: KFActive("f11-store-and-delete-same-txn")}
 }
 
 func genPrefillSize(t *rapid.T, allowBig bool) int {
@@ -54,7 +58,7 @@ func (mc *Machine) prefillAction(t *rapid.T) {
 
 func TestC01(t *testing.T) {
 	rapid.Check(t, func(t *rapid.T) {
-		sch := genSchema(t, SchemaCfg{Key: 1, Late: true, Merges: true})
+		sch := genSchema(t, SchemaCfg{Key: 1, Late: true, Merges: true, EnsureLenMerge: rapid.Bool().Draw(t, "len-merge-column")})
 		mc := NewMachine("C01", sch, column.Options{})
 		defer mc.Close()
 		defer mc.Guard(t)
@@ -68,6 +72,7 @@ func TestC01(t *testing.T) {
 			"prefill":    mc.prefillAction,
 			"bulkDelete": func(t *rapid.T) { mc.ActBulkDelete(t); mc.sampleCheck(t) },
 			"lateColumn": mc.ActLateColumn,
+			"zigzag":     mc.zigzagAction,
 		})
 		mc.CheckFull(t, false)
 		mc.CheckFull(t, true)
@@ -95,4 +100,47 @@ func (mc *Machine) sampleCheck(t *rapid.T) {
 		rows = append(rows, live[rapid.IntRange(0, len(live)-1).Draw(t, "sample")])
 	}
 	mc.CheckRows(t, rows, ReadRowTyped, ReadTxnAny)
+}
+
+// zigzagAction: one transaction that merges into a row, writes the same column of a row in
+// ANOTHER block, and comes back to the first row (merge, then perhaps a put) - on a column whose
+// merge changes the length of the value, so that every merged result is re-queued at the end of
+// the transaction buffer while later sections of the same block are still to be applied.
+func (mc *Machine) zigzagAction(t *rapid.T) {
+	col := -1
+	for i, cs := range mc.Sch.Cols {
+		if mc.M.ColLive[i] && mergeChangesLen(cs.Kind, cs.Merge) {
+			col = i
+		}
+	}
+	live := mc.M.Live()
+	if col < 0 || len(live) == 0 || live[0]>>14 == live[len(live)-1]>>14 {
+		t.Skip("needs a column with a length-changing merge and rows in two blocks")
+	}
+	r0 := live[rapid.IntRange(0, min(len(live)-1, 40)).Draw(t, "near")]
+	r1 := live[len(live)-1-rapid.IntRange(0, min(len(live)-1, 40)).Draw(t, "far")]
+	if rapid.Bool().Draw(t, "start-far") {
+		r0, r1 = r1, r0
+	}
+	val := func(label string) Value {
+		v := genValue(t, mc.Sch.Cols[col], label)
+		return v
+	}
+	spec := TxnSpec{FailAt: -1}
+	spec.Steps = append(spec.Steps,
+		Step{Kind: SUpdate, Row: r0, Stores: []Store{{Col: col, Merge: true, Val: val("z1")}}},
+		Step{Kind: SUpdate, Row: r1, Stores: []Store{{Col: col, Merge: rapid.Bool().Draw(t, "far-merge"), Val: val("z2")}}},
+		Step{Kind: SUpdate, Row: r0, Stores: []Store{{Col: col, Merge: true, Val: val("z3")}}})
+	if rapid.Bool().Draw(t, "then-put") {
+		spec.Steps = append(spec.Steps, Step{Kind: SUpdate, Row: r0, Stores: []Store{{Col: col, Val: val("z4")}}})
+	}
+	if rapid.Bool().Draw(t, "and-back") {
+		spec.Steps = append(spec.Steps, Step{Kind: SUpdate, Row: r1, Stores: []Store{{Col: col, Merge: true, Val: val("z5")}}})
+	}
+	mc.flag("zigzag-len-merge")
+	eff, committed := mc.RunTxn(t, spec, false)
+	if committed {
+		mc.CheckTouched(t, eff)
+	}
+	mc.CheckCount(t)
 }
